@@ -773,12 +773,20 @@ var _ uuid.UUID
 //@ ensures [C12 result-type] isnil(ret1) ==> (old(proposal.Type) <= 2 ==> isnil(ret0) || implements(ret0, error)) && (old(proposal.Type) >= 3 ==> istype(ret0, partitionBatchResult))
 //@ modifies *
 
+// the one check every vector-carrying request goes through: right dimension, and every component a finite number
+// (x == x excludes NaN, x - x == 0 excludes the infinities)
+//@ spec finiteF(x float32) bool = feq(x, x) && feq(fsub(x, x), 0)
+//@ spec allFinite(v []float32) bool = forall i int :: 0 <= i && i < len(v) ==> finiteF(v[i])
 //@ func (*storage.Dataset).checkDimension
-//@ props C11 C09
+//@ props C11 C09 C12 C01
 //@ pure
 //@ requires [meta] this.meta != nil && value != nil
-//@ ensures [check] isnil(ret) == (len(*value) % 4294967296 == this.meta.Dimension)
-//@ ensures [err] !isnil(ret) ==> ret == DimensionMissmatchErr
+//@ ensures [check] isnil(ret) == (len(*value) % 4294967296 == this.meta.Dimension && allFinite(*value))
+//@ ensures [dimension-first] len(*value) % 4294967296 != this.meta.Dimension ==> ret == DimensionMissmatchErr
+//@ ensures [C12 finite] len(*value) % 4294967296 == this.meta.Dimension && !allFinite(*value) ==> ret == NonFiniteValueErr
+//@ ensures [err] !isnil(ret) ==> ret == DimensionMissmatchErr || ret == NonFiniteValueErr
+//@ loop 1
+//@ invariant [finite-prefix] forall i int :: 0 <= i && i <= rangeindex ==> finiteF((*value)[i])
 
 //@ func (*storage.Dataset).getPartitionForId
 //@ props C10 C11
@@ -806,7 +814,8 @@ var _ uuid.UUID
 // ---------------------------------------------------------------------------------------------
 // C12: dataset-level batch writes. Items come straight from a decoded request: the only thing assumed about them is that a
 // repeated message field has no nil element (protobuf decoding never produces one); ids, vectors, metadata are arbitrary.
-//@ spec dimItemOK(d *Dataset, it *pb.BatchItem) bool = len(it.Value) % 4294967296 == d.meta.Dimension
+//@ spec dimItemOK(d *Dataset, it *pb.BatchItem) bool = len(it.Value) % 4294967296 == d.meta.Dimension && allFinite(it.Value)
+//@ spec checkErr(e error) bool = e == DimensionMissmatchErr || e == NonFiniteValueErr
 //@ spec noNilItems(items []*pb.BatchItem) bool = forall i int :: 0 <= i && i < len(items) ==> items[i] != nil
 //@ spec wfGroups(d *Dataset, m map[*partition][]*pb.BatchItem) bool = !has(m, nil) && (forall p *partition :: has(m, p) ==> wfPartition(d, p)) && (forall p *partition, i int :: has(m, p) && 0 <= i && i < len(m[p]) ==> m[p][i] != nil)
 
@@ -1015,8 +1024,8 @@ var _ uuid.UUID
 //@ ensures [C11 fan-out-error-is-error] fanouts == 1 && !isnil(subErr) ==> ret1 == subErr && ret0 == nil
 //@ ensures [C11 success-only-after-fan-out] isnil(ret1) ==> fanouts == 1 && isnil(subErr) && ret0 != nil
 //@ ensures [C11 partition-errors-reported] isnil(ret1) ==> forall k uuid.UUID :: has(sub, k) ==> has(ret0, k) && ret0[k] == sub[k]
-//@ ensures [C11 dimension-errors-reported] isnil(ret1) ==> forall i int :: 0 <= i && i < len(items) && !old(dimItemOK(this, items[i])) ==> has(ret0, old(itemIdOrNil(items[i]))) && (!has(sub, old(itemIdOrNil(items[i]))) ==> ret0[old(itemIdOrNil(items[i]))] == DimensionMissmatchErr)
-//@ ensures [C11 nothing-else-reported] isnil(ret1) ==> forall k uuid.UUID :: has(ret0, k) && !has(sub, k) ==> ret0[k] == DimensionMissmatchErr
+//@ ensures [C11 dimension-errors-reported] isnil(ret1) ==> forall i int :: 0 <= i && i < len(items) && !old(dimItemOK(this, items[i])) ==> has(ret0, old(itemIdOrNil(items[i]))) && (!has(sub, old(itemIdOrNil(items[i]))) ==> checkErr(ret0[old(itemIdOrNil(items[i]))]))
+//@ ensures [C11 nothing-else-reported] isnil(ret1) ==> forall k uuid.UUID :: has(ret0, k) && !has(sub, k) ==> checkErr(ret0[k])
 //@ modifies *
 //@ loop 1
 //@ invariant [checked] wfDatasetFull(this) && errors != nil && fresh(errors) && noNilItems(checkedItems) && noNilItems(items) && fanouts == 0
@@ -1024,12 +1033,12 @@ var _ uuid.UUID
 //@ invariant [items-fixed] this.meta == old(this.meta) && this.meta.Dimension == old(this.meta.Dimension) && forall i int :: 0 <= i && i < len(items) ==> items[i] == old(items[i])
 //@ invariant [C11 only-checked] forall j int :: 0 <= j && j < len(checkedItems) ==> dimItemOK(this, checkedItems[j])
 //@ invariant [C11 every-checked] forall i int :: 0 <= i && i <= rangeindex && dimItemOK(this, items[i]) ==> exists j int :: 0 <= j && j < len(checkedItems) && checkedItems[j] == items[i]
-//@ invariant [C11 dimension-errors] forall i int :: 0 <= i && i <= rangeindex && !dimItemOK(this, items[i]) ==> has(errors, itemIdOrNil(items[i])) && errors[itemIdOrNil(items[i])] == DimensionMissmatchErr
-//@ invariant [C11 only-dimension-errors] forall k uuid.UUID :: has(errors, k) ==> errors[k] == DimensionMissmatchErr
+//@ invariant [C11 dimension-errors] forall i int :: 0 <= i && i <= rangeindex && !dimItemOK(this, items[i]) ==> has(errors, itemIdOrNil(items[i])) && checkErr(errors[itemIdOrNil(items[i])])
+//@ invariant [C11 only-dimension-errors] forall k uuid.UUID :: has(errors, k) ==> checkErr(errors[k])
 //@ loop 2
 //@ invariant [C11 merge] errors != nil && fresh(errors) && errors != $map && fanouts == 1 && isnil(subErr) && $map == sub && forall k uuid.UUID :: has($map, k) == $start[k]
 //@ invariant [C11 merged] forall k uuid.UUID :: $visited[k] ==> has($map, k) && has(errors, k) && errors[k] == $map[k]
-//@ invariant [C11 rest] forall k uuid.UUID :: has(errors, k) && !$visited[k] ==> errors[k] == DimensionMissmatchErr
+//@ invariant [C11 rest] forall k uuid.UUID :: has(errors, k) && !$visited[k] ==> checkErr(errors[k])
 //@ invariant [C11 dimension-kept] forall i int :: 0 <= i && i < len(items) && !old(dimItemOK(this, items[i])) ==> has(errors, old(itemIdOrNil(items[i])))
 //@ func (*storage.Dataset).BatchUpdate
 //@ props C12 C11
@@ -1049,8 +1058,8 @@ var _ uuid.UUID
 //@ ensures [C11 fan-out-error-is-error] fanouts == 1 && !isnil(subErr) ==> ret1 == subErr && ret0 == nil
 //@ ensures [C11 success-only-after-fan-out] isnil(ret1) ==> fanouts == 1 && isnil(subErr) && ret0 != nil
 //@ ensures [C11 partition-errors-reported] isnil(ret1) ==> forall k uuid.UUID :: has(sub, k) ==> has(ret0, k) && ret0[k] == sub[k]
-//@ ensures [C11 dimension-errors-reported] isnil(ret1) ==> forall i int :: 0 <= i && i < len(items) && !old(dimItemOK(this, items[i])) ==> has(ret0, old(itemIdOrNil(items[i]))) && (!has(sub, old(itemIdOrNil(items[i]))) ==> ret0[old(itemIdOrNil(items[i]))] == DimensionMissmatchErr)
-//@ ensures [C11 nothing-else-reported] isnil(ret1) ==> forall k uuid.UUID :: has(ret0, k) && !has(sub, k) ==> ret0[k] == DimensionMissmatchErr
+//@ ensures [C11 dimension-errors-reported] isnil(ret1) ==> forall i int :: 0 <= i && i < len(items) && !old(dimItemOK(this, items[i])) ==> has(ret0, old(itemIdOrNil(items[i]))) && (!has(sub, old(itemIdOrNil(items[i]))) ==> checkErr(ret0[old(itemIdOrNil(items[i]))]))
+//@ ensures [C11 nothing-else-reported] isnil(ret1) ==> forall k uuid.UUID :: has(ret0, k) && !has(sub, k) ==> checkErr(ret0[k])
 //@ modifies *
 //@ loop 1
 //@ invariant [checked] wfDatasetFull(this) && errors != nil && fresh(errors) && noNilItems(checkedItems) && noNilItems(items) && fanouts == 0
@@ -1058,12 +1067,12 @@ var _ uuid.UUID
 //@ invariant [items-fixed] this.meta == old(this.meta) && this.meta.Dimension == old(this.meta.Dimension) && forall i int :: 0 <= i && i < len(items) ==> items[i] == old(items[i])
 //@ invariant [C11 only-checked] forall j int :: 0 <= j && j < len(checkedItems) ==> dimItemOK(this, checkedItems[j])
 //@ invariant [C11 every-checked] forall i int :: 0 <= i && i <= rangeindex && dimItemOK(this, items[i]) ==> exists j int :: 0 <= j && j < len(checkedItems) && checkedItems[j] == items[i]
-//@ invariant [C11 dimension-errors] forall i int :: 0 <= i && i <= rangeindex && !dimItemOK(this, items[i]) ==> has(errors, itemIdOrNil(items[i])) && errors[itemIdOrNil(items[i])] == DimensionMissmatchErr
-//@ invariant [C11 only-dimension-errors] forall k uuid.UUID :: has(errors, k) ==> errors[k] == DimensionMissmatchErr
+//@ invariant [C11 dimension-errors] forall i int :: 0 <= i && i <= rangeindex && !dimItemOK(this, items[i]) ==> has(errors, itemIdOrNil(items[i])) && checkErr(errors[itemIdOrNil(items[i])])
+//@ invariant [C11 only-dimension-errors] forall k uuid.UUID :: has(errors, k) ==> checkErr(errors[k])
 //@ loop 2
 //@ invariant [C11 merge] errors != nil && fresh(errors) && errors != $map && fanouts == 1 && isnil(subErr) && $map == sub && forall k uuid.UUID :: has($map, k) == $start[k]
 //@ invariant [C11 merged] forall k uuid.UUID :: $visited[k] ==> has($map, k) && has(errors, k) && errors[k] == $map[k]
-//@ invariant [C11 rest] forall k uuid.UUID :: has(errors, k) && !$visited[k] ==> errors[k] == DimensionMissmatchErr
+//@ invariant [C11 rest] forall k uuid.UUID :: has(errors, k) && !$visited[k] ==> checkErr(errors[k])
 //@ invariant [C11 dimension-kept] forall i int :: 0 <= i && i < len(items) && !old(dimItemOK(this, items[i])) ==> has(errors, old(itemIdOrNil(items[i])))
 //@ func (*storage.Dataset).BatchRemove
 //@ props C12 C11
@@ -1325,6 +1334,7 @@ var _ uuid.UUID
 //@ end
 //@ requires [wf] wfDatasetFull(this) && !isnil(ctx)
 //@ ensures [dimension-first] len(value) % 4294967296 != old(this.meta.Dimension) ==> ret == DimensionMissmatchErr && proposals == 0 && rpcs == 0
+//@ ensures [C12 non-finite-vector-refused] !old(allFinite(value)) ==> !isnil(ret) && proposals == 0 && rpcs == 0
 //@ ensures [unreachable-owner] dialFailed == 1 ==> !isnil(ret)
 //@ ensures [rpc-error] rpcFailed == 1 ==> !isnil(ret)
 //@ ensures [exactly-one-route] isnil(ret) ==> proposals + rpcs == 1
@@ -1349,6 +1359,7 @@ var _ uuid.UUID
 //@ end
 //@ requires [wf] wfDatasetFull(this) && !isnil(ctx)
 //@ ensures [dimension-first] len(value) % 4294967296 != old(this.meta.Dimension) ==> ret == DimensionMissmatchErr && proposals == 0 && rpcs == 0
+//@ ensures [C12 non-finite-vector-refused] !old(allFinite(value)) ==> !isnil(ret) && proposals == 0 && rpcs == 0
 //@ ensures [unreachable-owner] dialFailed == 1 ==> !isnil(ret)
 //@ ensures [rpc-error] rpcFailed == 1 ==> !isnil(ret)
 //@ ensures [exactly-one-route] isnil(ret) ==> proposals + rpcs == 1
